@@ -3,6 +3,7 @@ package main
 import (
 	"encoding/hex"
 	"fmt"
+	"github.com/virus-evolution/gofasta/pkg/gff"
 	"strings"
 	"time"
 
@@ -95,6 +96,41 @@ func c16Gen(r *RNG, id string) *Case {
 		vc := genVarCase(r, id, varOpts{fmtWeights: [2]int{1, 1}, withIns: r.Bool(), maxGenes: 2})
 		vc.Set("via", "")
 		return relOf(vc, "layout", "eq")
+	}
+	if r.Chance(1, 10) {
+		// the `##FASTA` section reader of gff.ReadGFF against the list reader on the same text: a valid file (distinct
+		// IDs), as it is or with white space around one of its lines - both must read the same records or both refuse
+		ids, descs, seqs := c16Valid(r)
+		seen := map[string]bool{}
+		for i := range ids {
+			for seen[ids[i]] {
+				descs[i] = "u" + descs[i]
+				ids[i] = "u" + ids[i]
+			}
+			seen[ids[i]] = true
+		}
+		lay := layout{width: r.PickInt([]int{0, 0, 7, 60}), crlf: r.Chance(1, 4), noEOL: r.Chance(1, 4)}
+		text := renderFasta(descs, seqs, lay)
+		if r.Chance(1, 2) {
+			lines := strings.Split(text, "\n")
+			k := r.Intn(len(lines))
+			cr := strings.HasSuffix(lines[k], "\r")
+			l := strings.TrimSuffix(lines[k], "\r")
+			pad := r.PickStr([]string{" ", "\t", "  "})
+			if r.Bool() {
+				l = pad + l
+			} else {
+				l = l + pad
+			}
+			if cr {
+				l += "\r"
+			}
+			lines[k] = l
+			text = strings.Join(lines, "\n")
+		}
+		c := NewCase("C16", id)
+		c.Set("text", text)
+		return relOf(c, "gfffasta", "same")
 	}
 	c := NewCase("C16", id)
 	ids, descs, seqs := c16Valid(r)
@@ -293,6 +329,45 @@ func runListReader(text string, hard bool) result {
 		var recs []string
 		for _, fr := range rs {
 			recs = append(recs, renderEFR(fr, false))
+		}
+		return strings.Join(recs, sepRS), nil
+	})
+}
+
+// The FASTA section of a GFF3 annotation (`##FASTA`) is read by gff.ReadGFF through the list reader: it is one more FASTA
+// reader of the program and must treat a text like the others do. Both sides are rendered as ID, description,
+// upper-cased sequence text, index.
+func renderTextRec(id, desc, seq string, idx int) string {
+	return strings.Join([]string{id, desc, strings.ToUpper(seq), fmt.Sprint(idx)}, sepUS)
+}
+
+func runListAsText(text string) result {
+	return safeRun(10*time.Second, func() (string, error) {
+		rs, err := fastaio.ReadEncodeAlignmentToList(strings.NewReader(text), false)
+		if err != nil {
+			return "", err
+		}
+		var recs []string
+		for _, fr := range rs {
+			d := fr.Decode()
+			recs = append(recs, renderTextRec(d.ID, d.Description, d.Seq, d.Idx))
+		}
+		return strings.Join(recs, sepRS), nil
+	})
+}
+
+func runGffFastaSection(text string) result {
+	return safeRun(10*time.Second, func() (string, error) {
+		g, err := gff.ReadGFF(strings.NewReader("##gff-version 3\n##FASTA\n" + text))
+		if err != nil {
+			return "", err
+		}
+		recs := make([]string, len(g.FASTA))
+		for _, fr := range g.FASTA {
+			if fr.Idx < 0 || fr.Idx >= len(recs) {
+				return "", fmt.Errorf("record index %d of %d", fr.Idx, len(recs))
+			}
+			recs[fr.Idx] = renderTextRec(fr.ID, fr.Description, fr.Seq, fr.Idx)
 		}
 		return strings.Join(recs, sepRS), nil
 	})
